@@ -26,6 +26,9 @@ type c02Args struct {
 	// type and closes, while a reader polls GetDataType
 	Burst      int      `json:"burst,omitempty"`
 	BurstTypes []string `json:"burst_types,omitempty"`
+	// BurstKind "forceclosed": the type is declared and the stream force closed first; then a reader
+	// polls GetDataType while other goroutines keep using the stream (Stats, Write, Read)
+	BurstKind string `json:"burst_kind,omitempty"`
 }
 
 type c02Ev struct {
@@ -55,6 +58,10 @@ func init() {
 		var out c02Out
 		if a.Burst > 0 {
 			for t := 0; t < a.Burst; t++ {
+				if a.BurstKind == "forceclosed" {
+					out.Trials = append(out.Trials, c02BurstForceClosed(&stamp, a.BurstTypes[t%len(a.BurstTypes)]))
+					continue
+				}
 				out.Trials = append(out.Trials, c02Burst(&stamp, a.BurstTypes))
 			}
 			r.Out, _ = json.Marshal(out)
@@ -104,6 +111,61 @@ func init() {
 		verifhook.ConfigureYield(false, 0)
 		r.Out, _ = json.Marshal(out)
 	}
+}
+
+// c02BurstForceClosed: a declared type must still be reported after ForceClose, also while other
+// goroutines are busy with the stream
+func c02BurstForceClosed(stamp *atomic.Int64, dt string) []c02Ev {
+	stream := streams.NewStdin()
+	var evs []c02Ev
+	rec := func(e c02Ev) { evs = append(evs, e) }
+	e := c02Ev{Proc: -1, Op: "open", Call: stamp.Add(1)}
+	stream.Open()
+	e.Ret = stamp.Add(1)
+	rec(e)
+	e = c02Ev{Proc: 0, Op: "set", Arg: dt, Call: stamp.Add(1)}
+	stream.SetDataType(dt)
+	e.Ret = stamp.Add(1)
+	rec(e)
+	e = c02Ev{Proc: 0, Op: "forceclose", Call: stamp.Add(1)}
+	stream.ForceClose()
+	e.Ret = stamp.Add(1)
+	rec(e)
+	var stop atomic.Bool
+	var wg sync.WaitGroup
+	for i := 0; i < 6; i++ {
+		wg.Add(1)
+		go func(i int) {
+			defer wg.Done()
+			buf := make([]byte, 16)
+			for !stop.Load() {
+				switch i {
+				case 0, 3, 4, 5:
+					stream.Stats()
+				case 1:
+					stream.Write([]byte("x"))
+				default:
+					stream.Read(buf)
+				}
+			}
+		}(i)
+	}
+	last := "\x00"
+	var lastEv c02Ev
+	for polls := 0; polls < 20000; polls++ {
+		g := c02Ev{Proc: 1, Op: "get", Call: stamp.Add(1)}
+		g.Out = stream.GetDataType()
+		g.Ret = stamp.Add(1)
+		if g.Out != last {
+			rec(g)
+			last = g.Out
+		}
+		lastEv = g
+	}
+	rec(lastEv)
+	stop.Store(true)
+	wg.Wait()
+	return evs
 }
 
 // c02Burst runs one tight-race trial and returns its recorded history
